@@ -62,10 +62,12 @@ type Ctx struct {
 	fresh map[string]int
 	// Defs: names of spec functions (defined in prelude) — not declared by us.
 	SpecFns map[string]*Decl
+	ivs      map[int]*ival
+	appRange map[string]*ival // value range of uninterpreted functions (array element ranges)
 }
 
 func NewCtx() *Ctx {
-	return &Ctx{tab: map[string]*Term{}, Decls: map[string]*Decl{}, fresh: map[string]int{}, SpecFns: map[string]*Decl{}}
+	return &Ctx{tab: map[string]*Term{}, Decls: map[string]*Decl{}, fresh: map[string]int{}, SpecFns: map[string]*Decl{}, appRange: map[string]*ival{}}
 }
 
 func (c *Ctx) mk(t *Term) *Term {
@@ -1041,6 +1043,13 @@ func (c *Ctx) Script(prelude string, asserts []*Term, getValues []*Term) string 
 			as = append(as, a.SMT())
 		}
 		fmt.Fprintf(&sb, "(declare-fun %s (%s) %s)\n", symName(n), strings.Join(as, " "), d.Ret.SMT())
+	}
+	for _, n := range names {
+		if rg, ok := c.appRange[n]; ok && rg.lo != nil && rg.hi != nil {
+			if d := c.Decls[n]; d != nil && len(d.Args) == 1 && d.Ret.IsInt() {
+				fmt.Fprintf(&sb, "(assert (forall ((i!r %s)) (and (<= %s (%s i!r)) (<= (%s i!r) %s))))\n", d.Args[0].SMT(), constSMT(&Term{S: IntS, C: rg.lo}), symName(n), symName(n), constSMT(&Term{S: IntS, C: rg.hi}))
+			}
+		}
 	}
 	defNames := map[*Term]string{}
 	for _, t := range order {
